@@ -251,6 +251,16 @@ impl SettingsSpec {
                 // only the gap is demanding
                 s.tol_feas = 1e-3;
             }
+            5 => {
+                // "absolute gap only"
+                s.tol_gap_abs = 1e-4;
+                s.tol_gap_rel = 1e-14;
+            }
+            6 => {
+                // "relative gap only"
+                s.tol_gap_abs = 1e-14;
+                s.tol_gap_rel = 1e-4;
+            }
             _ => {}
         }
         s.max_step_fraction = self.max_step_fraction;
@@ -302,7 +312,7 @@ impl SettingsSpec {
             "equilibrate_enable": self.equilibrate_enable, "presolve_enable": self.presolve_enable,
             "static_regularization_enable": self.static_reg, "dynamic_regularization_enable": self.dynamic_reg,
             "iterative_refinement_enable": self.iterative_refinement, "direct_solve_method": self.method,
-            "tol_profile": (["default 1e-8","loose 1e-5","tight 1e-10","gap 1e-3 / feas 1e-8","feas 1e-3 / gap 1e-8"][self.tol_profile as usize]),
+            "tol_profile": (["default 1e-8","loose 1e-5","tight 1e-10","gap 1e-3 / feas 1e-8","feas 1e-3 / gap 1e-8","gap abs 1e-4 / rel 1e-14","gap abs 1e-14 / rel 1e-4"][self.tol_profile as usize]),
             "max_step_fraction": self.max_step_fraction, "equilibrate_max_iter": self.equilibrate_max_iter,
             "max_iter": self.max_iter, "linesearch_backtrack_step": self.linesearch_backtrack_step,
             "max_threads": self.max_threads, "chordal_decomposition_enable": self.chordal, "every_printed_setting_non_default": self.odd_print_values,
